@@ -73,8 +73,9 @@ def main(argv):
         shutil.rmtree(wt, ignore_errors=True)
     dst = os.path.join(VERIF, "seeded", name)
     os.makedirs(dst, exist_ok=True)
-    shutil.copy(patch, os.path.join(dst, "patch.diff"))
-    shutil.copy(demo, os.path.join(dst, "demo.py"))
+    for src, name_ in ((patch, "patch.diff"), (demo, "demo.py")):
+        if os.path.abspath(src) != os.path.join(dst, name_):
+            shutil.copy(src, os.path.join(dst, name_))
     meta = json.load(open(meta_path)) if os.path.exists(meta_path) else {}
     meta["confirmation"] = result
     meta["what_was_run"] = ("scratch worktree of /repo HEAD: demo on clean tree, git apply patch.diff, repository test suite, demo on patched tree, "
